@@ -286,5 +286,66 @@ std::string run(const Args& a) {
 		return out;
 	}, 120);
 }
-Reg r1("c14.run", run);
+// one block as "type;kid,kid,..;ptr,ptr,.." (kid / ptr = block index, -1 = none), kids and ptrs in the order of the block's
+// own reference sets (the correspondence compares up to that order)
+std::string blkRow(NiObject* b) {
+	std::string r = b->GetBlockName();
+	for (size_t q; (q = r.find("::")) != std::string::npos;)
+		r.replace(q, 2, "~~");
+	std::set<NiRef*> ks, ps;
+	b->GetChildRefs(ks);
+	b->GetPtrs(ps);
+	auto lst = [](const std::set<NiRef*>& s) {
+		std::string o;
+		for (auto x : s)
+			o += (o.empty() ? "" : ",") + std::to_string(x->index == NIF_NPOS ? -1 : static_cast<long long>(x->index));
+		return o.empty() ? std::string("-") : o;
+	};
+	return r + ";" + lst(ks) + ";" + lst(ps);
+}
+
+// c14.kids <source> <blockIndex> : CloneChildren on the clone of one block of the source, added to a fresh model that already
+// holds at least as many blocks as the source; answers "n0=<index of the clone> src=<rows> dest=<rows from n0 on>"
+std::string kids(const Args& a) {
+	return forked([&]() -> std::string {
+		NifFile S;
+		if (!buildSource(S, a[1]))
+			return std::string("source-failed");
+		NiHeader& sh = S.GetHeader();
+		uint32_t bi = static_cast<uint32_t>(std::stoul(a[2]));
+		auto sb = sh.GetBlock<NiObject>(bi);
+		if (!sb)
+			return std::string("no-such-block");
+		NifFile D;
+		D.Create(sh.GetVersion());
+		NiHeader& dh = D.GetHeader();
+		while (dh.GetNumBlocks() < sh.GetNumBlocks())
+			dh.AddBlock(std::make_unique<NiNode>());
+		std::string before;
+		for (uint32_t i = 0; i < dh.GetNumBlocks(); ++i)
+			before += blkRow(dh.GetBlock<NiObject>(i)) + "|";
+		auto c = sb->Clone();
+		NiObject* cp = c.get();
+		uint32_t n0 = dh.AddBlock(std::move(c));
+		D.CloneChildren(cp, &S);
+		std::string src, dest, after;
+		for (uint32_t i = 0; i < sh.GetNumBlocks(); ++i)
+			src += (i ? "|" : "") + blkRow(sh.GetBlock<NiObject>(i));
+		for (uint32_t i = 0; i < n0; ++i)
+			after += blkRow(dh.GetBlock<NiObject>(i)) + "|";
+		for (uint32_t i = n0; i < dh.GetNumBlocks(); ++i)
+			dest += (i > n0 ? "|" : "") + blkRow(dh.GetBlock<NiObject>(i));
+		return "n0=" + std::to_string(n0) + " root=" + std::to_string(bi) + " prev=" + (before == after ? "same" : "CHANGED") + " src=" + src + " dest=" + dest;
+	}, 120);
+}
+// c14.nblocks <source>
+std::string nblocks(const Args& a) {
+	return forked([&]() -> std::string {
+		NifFile S;
+		if (!buildSource(S, a[1]))
+			return std::string("source-failed");
+		return std::to_string(S.GetHeader().GetNumBlocks());
+	}, 60);
+}
+Reg r1("c14.run", run), r2("c14.kids", kids), r3("c14.nblocks", nblocks);
 } // namespace
